@@ -14,7 +14,7 @@ import attrs
 import click
 
 from .exceptions import GWFError
-from .utils import is_valid_name, timer
+from .utils import atomic_write_json, is_valid_name, timer
 
 logger = logging.getLogger(__name__)
 
@@ -134,8 +134,7 @@ class FileSpecHashes:
             pass
 
     def close(self):
-        with open(self.path, "w") as hashes_file:
-            json.dump(self.hashes, hashes_file)
+        atomic_write_json(self.path, self.hashes)
 
     def __enter__(self):
         return self
